@@ -223,6 +223,16 @@ func c18GenSchemaX(r *core.Rng, rich bool) (*yang.Stmt, *snode) {
 					}
 					s.Add(yang.S("unique", strings.Join(u, " ")))
 					sn.uniques = append(sn.uniques, u)
+					// a second, independent unique set of the same arity over other leaves: equal values in
+					// different sets (ip of one entry = backup-ip of another) are no violation
+					if len(cands) >= 2*n && r.Chance(1, 2) {
+						var u2 []string
+						for _, pi := range perm[n : 2*n] {
+							u2 = append(u2, cands[pi])
+						}
+						s.Add(yang.S("unique", strings.Join(u2, " ")))
+						sn.uniques = append(sn.uniques, u2)
+					}
 				}
 				ss, sns = append(ss, s), append(sns, sn)
 			case "choice":
